@@ -47,20 +47,20 @@ def parts(tier):
     return [
         CH("pairs", "vflib.props.c02:scen_tight",
            {"kinds": "KINDS_FULL", "samples": 2, "keys": ["a"], "merge": ["default", "exact", "p50n2"], "registries": ["default", "none"], "dkf": True, "dkr": True},
-           shards=16, timeout=250, path_timeout=30, mode="CH-P+CH-E"),
-        CH("triples", "vflib.props.c02:scen_tight", {"kinds": "KINDS_FULL", "samples": 3, "keys": ["a"]}, shards=16, timeout=250, path_timeout=30, mode="CH-P+CH-E"),
+           shards=16, timeout=150, path_timeout=30, mode="CH-P+CH-E"),
+        CH("triples", "vflib.props.c02:scen_tight", {"kinds": "KINDS_FULL", "samples": 3, "keys": ["a"]}, shards=16, timeout=150, path_timeout=30, mode="CH-P+CH-E"),
         CH("two_keys", "vflib.props.c02:scen_tight", {"kinds": "KINDS_SMALL", "samples": 2, "keys": ["a", "b"], "merge": ["default", "p50n2"]},
-           shards=16, timeout=250, path_timeout=30, mode="CH-P+CH-E"),
+           shards=16, timeout=150, path_timeout=30, mode="CH-P+CH-E"),
         CH("three_nested_fields", "vflib.props.c02:scen_tight", {"kinds": "KINDS_NEST", "samples": 1, "keys": ["a", "b", "c"], "merge": ["default", "p50n2"],
-                                                                  "symbolic_leaves": False}, shards=16, timeout=250, path_timeout=30, mode="CH-E"),
+                                                                  "symbolic_leaves": False}, shards=16, timeout=150, path_timeout=30, mode="CH-E"),
         CH("grammar_depth1_pairs", "vflib.props.c02:scen_tight", {"kinds": "GRAMMAR1", "samples": 2, "keys": ["a"], "symbolic_leaves": False},
-           shards=16, timeout=250, path_timeout=30, mode="CH-E"),
+           shards=16, timeout=150, path_timeout=30, mode="CH-E"),
         CH("grammar_depth2_pairs", "vflib.props.c02:scen_tight", {"kinds": "GRAMMAR2", "samples": 2, "keys": ["a"], "symbolic_leaves": False},
-           shards=16, timeout=250, path_timeout=30, mode="CH-E"),
+           shards=16, timeout=150, path_timeout=30, mode="CH-E"),
         CH("literals", "vflib.props.c02:scen_tight", {"kinds": "KINDS_LIT", "samples": 3, "keys": ["a"], "symbolic_leaves": False},
-           shards=14, timeout=250, path_timeout=30, mode="CH-E"),
+           shards=14, timeout=150, path_timeout=30, mode="CH-E"),
         CH("literals_merged_models", "vflib.props.c02:scen_tight",
-           {"kinds": "KINDS_LITM", "samples": 2, "keys": ["a", "b"], "merge": ["default"], "symbolic_leaves": False}, shards=5, timeout=250, path_timeout=30, mode="CH-E"),
+           {"kinds": "KINDS_LITM", "samples": 2, "keys": ["a", "b"], "merge": ["default"], "symbolic_leaves": False}, shards=5, timeout=150, path_timeout=30, mode="CH-E"),
     ]
 
 
